@@ -36,6 +36,8 @@ def run(ctx, tier):
                         "point into the very strings being moved"),
                  ("Q6", "set(name, value): whenever a pair with that name exists, its value is overwritten and every later pair with "
                         "the name is erased, unconditionally"),
+                 ("Q8", "each lookup compares the pair member its argument names: `first` with the name argument, `second` with the "
+                        "value argument, all of them, by equality, joined by 'and'"),
                  ("Q5", "form-urlencoded decoder: a byte is copied verbatim only after it was tested not to be '+', and ' ' is written only for '+'")):
         ctx.rule(r, t)
     cfgs = C.configs_for(tier, thorough=["release", "devchecks", "amalgamated", "nopattern"])
@@ -196,8 +198,90 @@ def check_compaction_aliasing(ctx, fx):
     ctx.floor("Q7", n, 3, "compactions of the pair list")
 
 
+
+# what each lookup of the Standard's list compares: (pair member, argument role)
+LOOKUPS = {
+    "get": {("first", "key")}, "get_all": {("first", "key")},
+    "has/1": {("first", "key")}, "has/2": {("first", "key"), ("second", "value")},
+    "remove/1": {("first", "key")}, "remove/2": {("first", "key"), ("second", "value")},
+    "set": {("first", "key")},
+}
+
+
+def check_lookup_predicates(ctx, fx):
+    """Q8.  get/get_all/has/remove/set find their pairs with predicates (mostly generic lambdas handed to ranges
+    algorithms) comparing `param.first` / `param.second` with the arguments.  Comparing the wrong member, dropping the
+    value comparison of the two-argument overloads, or turning the conjunction into something else changes which pairs
+    match.  The comparisons are collected from the member function and from the instantiated call operators of the
+    lambdas it contains; arguments are followed through owned copies (`const std::string key_copy(key)`)."""
+    n = 0
+    for f in fx.functions:
+        if not (C.first_party(f) and f.get("cls") == "ada::url_search_params" and f.get("blocks")):
+            continue
+        sv = [p_ for p_ in f.get("params", []) if "string_view" in p_["ty"]]
+        nm = f["name"] if f["name"] in ("get", "get_all", "set") else "%s/%d" % (f["name"], len(sv))
+        want = LOOKUPS.get(nm)
+        if want is None:
+            continue
+        roles = {}
+        for i, p_ in enumerate(sv):
+            roles[p_["id"]] = "key" if i == 0 else "value"
+        inits = C.single_inits(f)
+        # owned copies of the arguments
+        for vid, init in inits.items():
+            refs = [x for x in X.walk(init) if isinstance(x, dict) and x.get("k") == "ref" and x.get("id") in roles]
+            if len(refs) == 1:
+                roles.setdefault(vid, roles[refs[0]["id"]])
+        bodies = [f] + [g for g in fx.functions if g.get("lambda") and (" in " + f["key"]) in g["key"]]
+        got, odd = set(), []
+        for g in bodies:
+            for nd, st, b in C.all_nodes(g):
+                is_cmp = (nd.get("k") == "bin" and nd.get("op") in ("==", "!=")) or \
+                         (nd.get("k") == "call" and nd.get("name") in ("operator==", "operator!="))
+                if not is_cmp:
+                    continue
+                sides = [nd["l"], nd["r"]] if nd.get("k") == "bin" else list(nd.get("args", []))
+                if nd.get("k") == "call" and nd.get("recv") is not None:
+                    sides = [nd["recv"]] + sides
+                mem = role = None
+                for sd in sides:
+                    for x in X.walk(sd):
+                        if not isinstance(x, dict):
+                            continue
+                        if x.get("k") == "member" and x.get("field") in ("first", "second") and "pair" in (x.get("cls") or X.show(x)):
+                            mem = x["field"]
+                        if x.get("k") == "member" and x.get("field") in ("first", "second") and mem is None:
+                            mem = x["field"]
+                        if x.get("k") == "ref" and x.get("id") in roles:
+                            role = roles[x["id"]]
+                if mem is None or role is None:
+                    continue
+                op = nd.get("op") if nd.get("k") == "bin" else nd.get("name").replace("operator", "")
+                if op != "==":
+                    odd.append("`%s` is an inequality" % X.show(nd)[:60])
+                got.add((mem, role))
+            # the comparisons of one predicate must be joined by &&
+            for nd, st, b in C.all_nodes(g):
+                if nd.get("k") == "bin" and nd.get("op") == "||" and any(
+                        isinstance(x, dict) and x.get("k") == "member" and x.get("field") in ("first", "second") for x in X.walk(nd)):
+                    odd.append("`%s` joins pair comparisons with ||" % X.show(nd)[:70])
+        n += 1
+        missing, extra = sorted(want - got), sorted(got - want)
+        ctx.check("Q8", "url_search_params::%s compares %s" % (nm, " and ".join("%s with the %s" % w for w in sorted(want))),
+                  got == want and not odd, ", ".join("%s==%s" % g_ for g_ in sorted(got)),
+                  "url_search_params::%s compares {%s}%s%s%s: it should match pairs by {%s}" % (
+                      nm, ", ".join("%s with %s" % g_ for g_ in sorted(got)),
+                      "; missing: %s" % ", ".join("%s with %s" % m for m in missing) if missing else "",
+                      "; unexpected: %s" % ", ".join("%s with %s" % m for m in extra) if extra else "",
+                      "; " + "; ".join(odd) if odd else "",
+                      ", ".join("%s with %s" % w for w in sorted(want))),
+                  where=f["loc"].replace("/repo/", ""))
+    ctx.floor("Q8", n, 7, "lookup operations of url_search_params")
+
+
 def check(ctx, fx):
     check_decoder_copies(ctx, fx)
+    check_lookup_predicates(ctx, fx)
     check_compaction_aliasing(ctx, fx)
     check_set(ctx, fx)
     # ---- Q1 ----
